@@ -26,7 +26,7 @@ PID = 7
 def alphabet():
     return [("exit", PID), ("reap", PID), ("vanish", PID), ("spawn", PID, False), ("spawn", PID, True),
             ("new", PID), ("isrun", 0), ("isrun", -1), ("boot",), ("step", 300), ("step", -300), ("iter",), ("iter", "keep"),
-            ("q", 0, "create_time"), ("q", -1, "name")]
+            ("q", 0, "create_time"), ("q", -1, "name"), ("clear",)]
 
 
 def valid(op, st):
@@ -112,8 +112,11 @@ def gen_random(rng):
             nh += 1
         elif r < 0.66:
             hist.append(("step", rng.choice([1, -1, 7, -7, 300, -300, 86400, -86400, 3600 * 24 * 365])))
-        elif r < 0.72:
+        elif r < 0.70:
             hist.append(("boot",))
+        elif r < 0.72:
+            # any other psutil call in between: cache maintenance and table queries
+            hist.append(rng.choice([("clear",), ("clear",), ("pids",), ("pidex", p)]))
         elif r < 0.77:
             hist.append(("iter", "keep") if rng.random() < 0.6 else ("iter",))
             nh += sum(1 for q in pids if state[q] != "free")
@@ -232,6 +235,8 @@ def fresh_histories():
                 [("iter", "keep"), ("step", 7), ("new", PID), ("iter", "keep")],
                 [("new", PID), ("step", 86400), ("iter", "keep"), ("isrun", 0)],
                 [("new", PID), ("q", 0, "create_time"), ("step", 1), ("new", PID), ("q", 1, "create_time")],
+                [("new", PID), ("step", 3600), ("clear",), ("isrun", 0), ("new", PID)],
+                [("iter", "keep"), ("step", -86400), ("clear",), ("iter", "keep"), ("isrun", 0)],
                 [("step", 5), ("step", -5), ("new", PID), ("boot",), ("step", 9), ("boot",), ("new", PID)]):
         out.append(pre + mid + [("cmp",)])
     return out
